@@ -195,6 +195,17 @@ macro_rules! api_dil {
                     let k = api::PublicKey::from_bytes(&pk);
                     ok(k.verify(&msg, &sig).to_string())
                 }
+                // the Keypair entry points (first argument: sk || pk as Keypair::to_bytes gives them)
+                ("Keypair::sign", 5) => {
+                    let kpb = unhex(a[0])?; let msg = unhex(a[1])?;
+                    let k = api::Keypair::from_bytes(&kpb);
+                    let s = k.sign(&msg); ok(fmt_sig(Some(&s)))
+                }
+                ("Keypair::verify", 4) => {
+                    let kpb = unhex(a[0])?; let msg = unhex(a[1])?; let sig = unhex(a[2])?;
+                    let k = api::Keypair::from_bytes(&kpb);
+                    ok(k.verify(&msg, &sig).to_string())
+                }
                 _ => None,
             }
         }
@@ -252,6 +263,29 @@ macro_rules! api_mldsa {
                 ("PublicKey::prehash_verify", 6) => {
                     let pk = unhex(a[0])?; let msg = unhex(a[1])?; let sig = unhex(a[2])?; let ctx = opt_bytes(a[3])?; let p = ph(a[4])?;
                     let k = api::PublicKey::from_bytes(&pk);
+                    ok(k.prehash_verify(&msg, &sig, ctx.as_deref(), p).to_string())
+                }
+                // the Keypair entry points (first argument: sk || pk as Keypair::to_bytes gives them)
+                ("Keypair::sign", 5) => {
+                    let kpb = unhex(a[0])?; let msg = unhex(a[1])?; let ctx = opt_bytes(a[2])?; let hedged = a[3] == "1"; let tape = tape_arg(a[4])?;
+                    let k = api::Keypair::from_bytes(&kpb);
+                    let s = with_tape(&tape, || k.sign(&msg, ctx.as_deref(), hedged));
+                    ok(fmt_sig(s.as_ref().map(|x| &x[..])))
+                }
+                ("Keypair::prehash_sign", 7) => {
+                    let kpb = unhex(a[0])?; let msg = unhex(a[1])?; let ctx = opt_bytes(a[2])?; let hedged = a[3] == "1"; let p = ph(a[4])?; let tape = tape_arg(a[5])?;
+                    let k = api::Keypair::from_bytes(&kpb);
+                    let s = with_tape(&tape, || k.prehash_sign(&msg, ctx.as_deref(), hedged, p));
+                    ok(fmt_sig(s.as_ref().map(|x| &x[..])))
+                }
+                ("Keypair::verify", 4) => {
+                    let kpb = unhex(a[0])?; let msg = unhex(a[1])?; let sig = unhex(a[2])?; let ctx = opt_bytes(a[3])?;
+                    let k = api::Keypair::from_bytes(&kpb);
+                    ok(k.verify(&msg, &sig, ctx.as_deref()).to_string())
+                }
+                ("Keypair::prehash_verify", 6) => {
+                    let kpb = unhex(a[0])?; let msg = unhex(a[1])?; let sig = unhex(a[2])?; let ctx = opt_bytes(a[3])?; let p = ph(a[4])?;
+                    let k = api::Keypair::from_bytes(&kpb);
                     ok(k.prehash_verify(&msg, &sig, ctx.as_deref(), p).to_string())
                 }
                 _ => None,
